@@ -138,8 +138,32 @@ class Facts:
                 return res
         return {name}
 
+    def _helpers_of(self, parent_fn):
+        """new (post-pinned-commit) helper functions that are analysed through `parent_fn`"""
+        if not hasattr(self, '_helpers'):
+            self._helpers = {}
+        if parent_fn not in self._helpers:
+            base = re.sub(r'(::\{closure#\d+\})+$', '', parent_fn)
+            hs = set()
+            for b in self.bodies:
+                if b['kind'] in ('promoted', 'ext', 'closure'):
+                    continue
+                if self.is_new_fn(b['fn']):
+                    obs = {re.sub(r'(::\{closure#\d+\})+$', '', o) for o in self.owner_bodies(b['fn'])}
+                    if base in obs and b['fn'] != base:
+                        hs.add(b['fn'])
+            self._helpers[parent_fn] = hs
+        return self._helpers[parent_fn]
+
     def closures_of(self, parent_fn):
-        return [b for b in self.bodies if b['kind'] == 'closure' and b['parent'] == parent_fn]
+        """closures written directly in `parent_fn`, or directly in a new helper analysed through it"""
+        ps = {parent_fn} | self._helpers_of(parent_fn)
+        return [b for b in self.bodies if b['kind'] == 'closure' and b['parent'] in ps]
+
+    def closures_under(self, parent_fn):
+        """closures nested at any depth in `parent_fn` or in a new helper analysed through it"""
+        ps = tuple(x + '::' for x in ({parent_fn} | self._helpers_of(parent_fn)))
+        return [b for b in self.bodies if b['kind'] == 'closure' and b['fn'].startswith(ps)]
 
     # -- call graph ----------------------------------------------------------------------------
     def callgraph(self):
@@ -509,7 +533,8 @@ def instantiate_path(cp, args, inst, caller_held, callee):
             retv = d['value']
             ret_held = held
             continue
-        ne = Ev(e.kind, e.bb, e.line, held, e.mac, **d)
+        # a block number of the callee must never be mistaken for one of the caller
+        ne = Ev(e.kind, ('inl', callee, e.bb), e.line, held, e.mac, **d)
         ne.d['inlined_from'] = callee
         out.append(ne)
     return out, retv, ret_held
